@@ -105,6 +105,15 @@ class C13(RexDriver):
               '(both orders) and two-shape sets differing in one fragment '
               'class x {default, max_patterns 1, 2, min_strings_per_pattern '
               '2} x variableLengthFrags off/on, tag off/on'),
+             ('wide', 'K same-shape examples, K in 10..13, one fragment '
+              'constant except at input position q (every q); 4-7 '
+              'punctuation characters in every rotation; 98-101 fragments; '
+              'x {default, perl, vlf, max_patterns=1}, tag off/on, dict and '
+              'pandas forms'),
+             ('history', 'E3: every sequence of 1-2 (3) extract() calls in '
+              'one process over menus of 3 example sets sharing coarse '
+              'signature and group count, x extra_letters x tag x dialect; '
+              'per-list clauses on the last call'),
              ('refine', 'E2: sets of 4-5 from the class-refinement pools x 8 '
               'Size settings x {default, max_patterns=1}, tagged run '
               'replaying the same answers')]
@@ -173,6 +182,14 @@ class C13(RexDriver):
                 yield {'ex': xs, 'pts': 'prune-vlf', 'forms': 'list'}
             for xs in A.boundary_sets():
                 yield {'ex': xs, 'pts': 'prune-vlf', 'forms': 'list'}
+        elif layer == 'wide':
+            for xs in A.wide_sets():
+                yield {'ex': xs, 'pts': 'wide', 'forms': 'all'}
+            for xs in A.fragment_limit_sets():
+                yield {'ex': xs, 'pts': 'dev0', 'forms': 'list'}
+        elif layer == 'history':
+            for c in self.history_cases():
+                yield c
         elif layer == 'refine':
             for (name, pool, sizes, kw) in A.REFINE_POOLS:
                 for n in sizes:
@@ -254,6 +271,11 @@ class C13(RexDriver):
             opts = [o for o in allpts if A.n_deviations(o, ax) > 2]
         elif name == 'only2':
             opts = [o for o in allpts if A.n_deviations(o, ax) == 2]
+        elif name == 'wide':
+            d = dict((k, v[0]) for (k, v) in ax.items())
+            opts = [dict(d, **x) for x in
+                    ({}, {'dialect': 'perl'}, {'variableLengthFrags': True},
+                     {'max_patterns': 1})]
         elif name == 'family':
             opts = [o for o in allpts if prune_dev(o) == 0
                     and not o['strip'] and not o['remove_empties']
@@ -381,6 +403,54 @@ class C13(RexDriver):
                       'options': A.opt_key(opts)}
             detail.update(info)
             R.viol('%s:%s' % (kind, cause), clause, detail, sub)
+
+    def judge_history(self, R, case, seq, examples, opts, res, fresh):
+        (rex, _, exc) = res
+        (rex0, _, exc0) = fresh
+        sub = {'sequence': [list(x) for x in seq]}
+        detail = {'history': self.describe_history(case, seq),
+                  'fresh_state_result': rex0}
+        if exc is not None:
+            R.nontrivial = True
+            R.out('hist-raises:%s' % type(exc).__name__)
+            R.viol('%sraises:%s:opts=%s'
+                   % ('history-dependent:' if exc0 is None else '',
+                      type(exc).__name__, A.opt_key(opts)),
+                   'extract-returns',
+                   dict(detail, exception=repr(exc)[:300]), sub)
+            return
+        if rex:
+            R.nontrivial = True
+        failed = self.clauses(rex, examples, opts)
+        if failed:
+            R.out('hist%d:V:%s' % (len(seq), '+'.join(sorted(set(
+                f[0] for f in failed)))))
+            fresh_bad = set(f[0] for f in self.clauses(rex0, examples, opts)) \
+                if exc0 is None else set(['raises'])
+            done = set()
+            for (kind, clause, info) in failed:
+                if kind in done:
+                    continue
+                done.add(kind)
+                if kind not in fresh_bad:
+                    sig = 'history-dependent:%s:opts=%s' % (kind,
+                                                            A.opt_key(opts))
+                else:
+                    def fails(s2, o2, _kind=kind):
+                        self.fresh_state()
+                        o3 = dict(o2)
+                        r2, _, e2 = self.call(s2, 'list', o3)
+                        R.ev(1, checked=0)
+                        return e2 is not None or any(
+                            f[0] == _kind for f in self.clauses(r2, s2, o3))
+                    sig = '%s:%s' % (kind, self.diagnose(examples, opts,
+                                                         fails))
+                R.viol(sig, clause, dict(detail, returned=rex, **info), sub)
+        elif exc0 is None and rex != rex0:
+            R.unspec += 1
+            R.out('hist%d:differs-from-fresh' % len(seq))
+        else:
+            R.out('hist%d:%d/%d' % (len(seq), len(rex), len(examples)))
 
     def run_unsampled(self, R, case):
         ex = case['ex']
